@@ -14,6 +14,7 @@ pub mod c09;
 pub mod c16;
 pub mod c17;
 pub mod c18;
+pub mod c19;
 pub mod c20;
 pub mod common;
 #[cfg(not(pv_core))]
@@ -59,6 +60,7 @@ pub fn run(ctx: &mut Ctx) -> bool {
         "C14" => c14::run(ctx),
         #[cfg(not(pv_core))]
         "C15" => c15::run(ctx),
+        "C19" => c19::run(ctx),
         "C20" => c20::run(ctx),
         _ => return false,
     }
